@@ -1,5 +1,5 @@
 (* Properties/C05.v — required inputs are mandatory arguments, optional ones setters, each once (extraction part). *)
-From LN Require Import Model.Extractor Spec.Inputs Proofs.InputsP.
+From LN Require Import Model.Extractor Model.Emit Spec.Inputs Proofs.InputsP Proofs.InterfaceP.
 From Coq Require Import Permutation.
 
 (* the extracted parameter table is exactly the declared input list: nothing dropped, nothing duplicated,
@@ -18,6 +18,35 @@ Print Assumptions C05_sorted_is_permutation.
 Theorem C05_no_drop : forall l ds, NoDup (map d_name (l ++ ds)) -> add_new l ds = l ++ ds.
 Proof. intros l ds. exact (add_new_nodup ds l). Qed.
 Print Assumptions C05_no_drop.
+
+(* the emitted interface of an operation, for every operation and configuration: one field of the request struct per
+   input of the table, in order (so: each once); ... *)
+Theorem C05_request_struct_fields : forall cfg o rs, request_struct cfg o = Ok rs ->
+  exists head fields,
+    Forall2 (fun p f => exists code, struct_field false p = Ok code /\ f = code ++ t ",") (o_params o) fields /\
+    rs = head ++ t "{" ++ concat fields ++ t "}".
+Proof. exact request_struct_fields. Qed.
+Print Assumptions C05_request_struct_fields.
+
+(* ... one chaining setter per OPTIONAL input and no other method on the request type; the required-arguments struct
+   and the client method next to it ... *)
+Theorem C05_setters : forall h cfg o c, request_file h cfg o = Ok c ->
+  exists pre rs reqd sname setters post cm,
+    request_struct cfg o = Ok rs /\ required_struct o = Ok reqd /\
+    Forall2 (fun p s => builder_method p = Ok s) (optional_params o) setters /\
+    client_method o = Ok cm /\
+    c = pre ++ rs ++ reqd ++ t "impl FluentRequest<'_," ++ sname ++ t "> {" ++ concat setters ++ t "}" ++ post ++ t "{" ++ cm ++ t "}".
+Proof. exact request_file_interface. Qed.
+Print Assumptions C05_setters.
+
+(* ... and, with at most three required inputs, one positional argument per REQUIRED input, in the table's order *)
+Theorem C05_positional_arguments : forall o cm, crowded_args o = false -> client_method o = Ok cm ->
+  exists args,
+    Forall2 (fun p a => exists k ty, field_ident (p_name p) = Ok k /\ ref_ty_code [] (p_ty p) = Ok ty /\ a = k ++ t ":" ++ ty)
+            (required_params o) args /\
+    exists pre post, cm = pre ++ t "( & self ," ++ sep_by (t ",") args ++ post.
+Proof. exact client_method_args. Qed.
+Print Assumptions C05_positional_arguments.
 
 Theorem C05_nonvacuous :
   let str := Inl (Sch false None false false (KStr [] [])) in
